@@ -75,6 +75,16 @@ func Extension(opts ExtensionOpts) extensions.Extension {
 	}
 }
 
+// NewFeed returns a copy of the extension with empty elevator alert state.
+//
+// The deduplication of elevator alerts is scoped to a single feed message.
+func (e extension) NewFeed() extensions.Extension {
+	return extension{
+		opts:           e.opts,
+		elevatorAlerts: map[string]*gtfsrt.Alert{},
+	}
+}
+
 const (
 	// The value of the language field in the description string containing the metadata.
 	MetadataLanguage = "github.com/jamespfennell/gtfs/extensions/nyctalerts/Metadata"
